@@ -34,7 +34,7 @@ def run(ctx):
             chanlib.liveness_tie(ctx, "known-" + w[:-5], [h, "run", os.path.join(VERIF, "findings", w)], drv)
     ns = 3000 if ctx.quick else 40000
     chanlib.tie(ctx, "seq-differential", [h, "gen", "--seed", str(ctx.seed), "--cases", str(ns), "--mode", "seq", "--tier", ctx.tier], [drv])
-    n = 8000 if ctx.quick else 100000
+    n = 4000 if ctx.quick else 80000
     chanlib.liveness_tie(ctx, "async-futures", [h, "gen", "--seed", str(ctx.seed), "--cases", str(n), "--mode", "async",
                                                 "--tier", ctx.tier], drv)
     chanlib.liveness_tie(ctx, "conc-liveness", [h, "gen", "--seed", str(ctx.seed), "--cases", str(n), "--mode", "conc",
